@@ -79,6 +79,7 @@ def r1_signature(ctx, t):
         params = params.replace('check: impl Fn(u32, u32) -> bool', 'check: F')
         head = re.sub(r'(fn\s+\w+)', r'\1<F: Fn(u32, u32) -> bool>', head, count=1)
         ctx.hit('R14')
+    head = re.sub(r'\bpub\((super|crate)\)', 'pub', head)
     sig = head + '(' + params + ')'
     if ret is not None:
         sig += ' -> (r: %s)' % ret
